@@ -1255,12 +1255,21 @@ class AgProtocol(utils.EventEmitter):
                 return
 
             # Isolate the AT response code and parameters.
-            raw_command = self.read_buffer[:trailer]
-            command = AtCommand.parse_from(raw_command)
-            logger.debug(f"<<< {raw_command.decode()}")
+            raw_command = self.read_buffer[:trailer].strip()
 
-            # Consume the response bytes.
+            # Consume the command line before parsing it, so that a line that
+            # cannot be parsed is answered once instead of being parsed again
+            # each time more data arrives.
             self.read_buffer = self.read_buffer[trailer + 1 :]
+            if not raw_command:
+                continue
+            try:
+                command = AtCommand.parse_from(raw_command)
+            except (ProtocolError, ValueError):
+                logger.warning('Invalid command line %r', bytes(raw_command))
+                self.send_error()
+                continue
+            logger.debug(f"<<< {raw_command.decode()}")
 
             if command.sub_code == AtCommand.SubCode.TEST:
                 handler_name = f'_on_{command.code.lower()}_test'
